@@ -51,7 +51,11 @@ impl MemoHeader {
             self.revisions.changed_at,
         );
 
-        if self.revisions.changed_at > revisions.changed_at {
+        // A memo that took part in a cycle is never backdated (see `can_backdate`), so its
+        // `changed_at` can be newer than that of the cycle head it read, which *was* backdated.
+        // Re-executing the same deterministic query outside of the cycle then legitimately
+        // yields an older `changed_at`; keeping the old (newer) stamp below is conservative.
+        if self.revisions.changed_at > revisions.changed_at && !self.was_cycle_participant() {
             report_backdate_violation(index, self.revisions.changed_at, revisions.changed_at);
         }
 
